@@ -126,6 +126,107 @@ pub fn large_unary(size: usize, stored: u8, second: bool, prop: &str, case: Valu
     }
 }
 
+/// Unary functions at finite but awkward magnitudes (results close to the largest double, subnormal or underflowing
+/// results): every component whose TRUE value is representable must still come out right - an intermediate that
+/// leaves the range although the result does not is a defect. `which` indexes AWKWARD.
+pub const AWKWARD: [f64; 10] = [1.2e154, 1.0e154, 2.5e153, 1.0e-120, 1.0e-107, 7.0e-155, 3.0e-162, 1.0e300, 1.0e-300, 4.0e-320];
+
+pub fn awkward_unary(which: usize, second: bool, prop: &str, case: Value, idx: u64, acc: &mut Acc) {
+    let x = AWKWARD[which];
+    let uni: Vec<String> = vec!["a".into(), "b".into()];
+    let g = [1.0_f64, 2.5];
+    let hh = [[0.5_f64, 0.25], [0.25, 0.0]]; // true second partials of the argument
+    // (name, f, f', f'') with the derivative factors written in their directly representable form
+    let mut table: Vec<(&str, f64, f64, f64)> = vec![
+        ("neg", -x, -1.0, 0.0),
+        ("abs", x.abs(), 1.0, 0.0),
+        ("pow2", x * x, 2.0 * x, 2.0),
+        ("pow3", x.powf(3.0), 3.0 * x * x, 6.0 * x),
+        ("pow0.5", x.sqrt(), 0.5 / x.sqrt(), -0.25 / (x * x.sqrt())),
+        ("pow-1", 1.0 / x, -1.0 / x / x, 2.0 / x / x / x),
+        ("log", x.ln(), 1.0 / x, -1.0 / x / x),
+    ];
+    if x < 1.0 {
+        table.push(("exp", x.exp(), x.exp(), x.exp()));
+        table.push(("norm_cdf", phi_cdf(x), phi_pdf(x), -x * phi_pdf(x)));
+    }
+    let judged = |w: f64| w.is_finite() && (w == 0.0 || w.abs() > 1e-290);
+    acc.nontrivial();
+    for (name, f0, f1, f2) in table.iter() {
+        for own in [false, true] {
+            acc.eval();
+            if !second {
+                let x1 = Dual::try_new(x, uni.clone(), g.to_vec()).unwrap();
+                let r: Dual = match (*name, own) {
+                    ("neg", false) => -&x1,
+                    ("neg", true) => -x1.clone(),
+                    ("abs", _) => x1.abs(),
+                    ("exp", _) => x1.exp(),
+                    ("log", _) => x1.log(),
+                    ("norm_cdf", _) => x1.norm_cdf(),
+                    ("pow2", false) => (&x1).pow(2.0),
+                    ("pow2", true) => x1.clone().pow(2.0),
+                    ("pow3", false) => (&x1).pow(3.0),
+                    ("pow3", true) => x1.clone().pow(3.0),
+                    ("pow0.5", false) => (&x1).pow(0.5),
+                    ("pow0.5", true) => x1.clone().pow(0.5),
+                    (_, false) => (&x1).pow(-1.0),
+                    (_, true) => x1.clone().pow(-1.0),
+                };
+                let gr = r.gradient1(uni.clone());
+                let mut bad = judged(*f0) && !close_scaled(r.real(), *f0, 1e-12, f0.abs());
+                for i in 0..2 {
+                    let w = f1 * g[i];
+                    if judged(w) && judged(*f1) && !close_scaled(gr[i], w, 1e-11, w.abs()) {
+                        bad = true;
+                    }
+                }
+                if bad {
+                    acc.violate(&format!("{}/awkward-magnitude/{}", prop, name), idx, case.clone(), json!({"x": x, "want": [f0, f1 * g[0], f1 * g[1]]}), json!(format!("{:?}", r)));
+                }
+            } else {
+                let x2 = Dual2::try_new(x, uni.clone(), g.to_vec(), vec![0.5 * hh[0][0], 0.5 * hh[0][1], 0.5 * hh[1][0], 0.5 * hh[1][1]]).unwrap();
+                let r: Dual2 = match (*name, own) {
+                    ("neg", false) => -&x2,
+                    ("neg", true) => -x2.clone(),
+                    ("abs", _) => x2.abs(),
+                    ("exp", _) => x2.exp(),
+                    ("log", _) => x2.log(),
+                    ("norm_cdf", _) => x2.norm_cdf(),
+                    ("pow2", false) => (&x2).pow(2.0),
+                    ("pow2", true) => x2.clone().pow(2.0),
+                    ("pow3", false) => (&x2).pow(3.0),
+                    ("pow3", true) => x2.clone().pow(3.0),
+                    ("pow0.5", false) => (&x2).pow(0.5),
+                    ("pow0.5", true) => x2.clone().pow(0.5),
+                    (_, false) => (&x2).pow(-1.0),
+                    (_, true) => x2.clone().pow(-1.0),
+                };
+                let gr = r.gradient1(uni.clone());
+                let hr = r.gradient2(uni.clone());
+                let mut bad = judged(*f0) && !close_scaled(r.real(), *f0, 1e-12, f0.abs());
+                for i in 0..2 {
+                    let w = f1 * g[i];
+                    if judged(w) && judged(*f1) && !close_scaled(gr[i], w, 1e-11, w.abs()) {
+                        bad = true;
+                    }
+                    for j in 0..2 {
+                        let (t1, t2) = (f1 * hh[i][j], f2 * g[i] * g[j]);
+                        let w = t1 + t2;
+                        // judged only where both terms and their sum are representable and do not cancel
+                        if judged(t1) && judged(t2) && judged(w) && judged(*f1) && judged(*f2) && w.abs() > 1e-3 * (t1.abs() + t2.abs()) && !close_scaled(hr[[i, j]], w, 1e-10, t1.abs() + t2.abs()) {
+                            bad = true;
+                        }
+                    }
+                }
+                if bad {
+                    acc.violate(&format!("{}/awkward-magnitude/{}", prop, name), idx, case.clone(), json!({"x": x, "want_value": f0, "want_f1": f1, "want_f2": f2}), json!(format!("{:?} {:?} {:?}", r.real(), gr, hr)));
+                }
+            }
+        }
+    }
+}
+
 pub fn explore_large(prop: &str, second: bool) -> (Acc, Value) {
     let mut acc = Acc::new();
     let mut n = 0u64;
@@ -139,5 +240,10 @@ pub fn explore_large(prop: &str, second: bool) -> (Acc, Value) {
             n += 1;
         }
     }
-    (acc, json!({"sizes": LARGE_SIZES, "stored_orders": 3, "functions": 10}))
+    for which in 0..AWKWARD.len() {
+        let case = json!({"expr": {"Leaf": 0}, "large": [which, 200]});
+        awkward_unary(which, second, prop, case, n, &mut acc);
+        n += 1;
+    }
+    (acc, json!({"sizes": LARGE_SIZES, "stored_orders": 3, "functions": 10, "awkward_magnitudes": AWKWARD}))
 }
